@@ -18,8 +18,10 @@ import (
 	"fmt"
 	"io"
 	"math/rand"
+	"net/http"
 	"net/http/httptest"
 	"reflect"
+	"runtime"
 	"strconv"
 	"strings"
 	"testing"
@@ -296,5 +298,104 @@ func TestVerifC19(t *testing.T) {
 		})
 	}
 
+	// ---- overlapping responses: a client that is slow to take its bytes must still get its own
+	// data while other responses are produced meanwhile (the payload handed to Write must not be
+	// storage that a later response reuses). Deterministic: writer A stalls half way through
+	// Write, a second full response B is produced, then A completes.
+	settings.Set(defs.ServerCompressionThresholdSetting, "64")
+
+	prevProcs := runtime.GOMAXPROCS(1)
+	no := verifh.N(60, 1500)
+
+	for i := 0; i < no; i++ {
+		mk := func(tag string) []any {
+			rows := make([]any, 40+r.Intn(40))
+			for j := range rows {
+				rows[j] = map[string]any{"who": tag, "n": j, "text": c19GenString(r) + tag}
+			}
+
+			return rows
+		}
+
+		va, vb := mk(fmt.Sprintf("A%d", i)), mk(fmt.Sprintf("B%d", i))
+		slow := &c19SlowWriter{header: http.Header{}, stall: make(chan struct{}), resume: make(chan struct{})}
+		done := make(chan struct{})
+
+		go func() {
+			WriteJSON(slow, ResponseInfo{SessionID: 2, AcceptsGzip: true}, 200, va)
+			close(done)
+		}()
+
+		<-slow.stall // A is inside Write, half of its payload taken
+
+		recB := httptest.NewRecorder()
+		WriteJSON(recB, ResponseInfo{SessionID: 3, AcceptsGzip: true}, 200, vb)
+		close(slow.resume)
+		<-done
+
+		for _, c := range []struct {
+			name string
+			enc  bool
+			body []byte
+			v    any
+		}{{"slow", slow.header.Get("Content-Encoding") == "gzip", slow.buf.Bytes(), va},
+			{"second", recB.Header().Get("Content-Encoding") == "gzip", recB.Body.Bytes(), vb}} {
+			plain := c.body
+
+			if c.enc {
+				zr, err := gzip.NewReader(bytes.NewReader(c.body))
+				if err == nil {
+					plain, err = io.ReadAll(zr)
+				}
+
+				if err != nil {
+					fails.Write(verifh.Failure{Class: "overlap-undecodable", What: "with two responses in flight the " + c.name + " client's compressed body does not decode", Input: fmt.Sprintf("round %d", i), Got: err.Error()})
+
+					continue
+				}
+			}
+
+			want, _ := json.Marshal(c.v)
+
+			var a, b any
+
+			_ = json.Unmarshal(want, &a)
+
+			if err := json.Unmarshal(plain, &b); err != nil || !reflect.DeepEqual(a, b) {
+				fails.Write(verifh.Failure{Class: "overlap-wrong-data", What: "with two responses in flight the " + c.name + " client received data that is not what its handler produced", Input: fmt.Sprintf("round %d", i)})
+			}
+		}
+
+		stats.Inc("overlap")
+	}
+
+	runtime.GOMAXPROCS(prevProcs)
 	settings.Set(defs.ServerCompressionThresholdSetting, "")
+}
+
+// c19SlowWriter is a ResponseWriter whose Write takes the first half of p, lets the test do other
+// work, and then takes the rest.
+type c19SlowWriter struct {
+	header http.Header
+	buf    bytes.Buffer
+	stall  chan struct{}
+	resume chan struct{}
+	once   bool
+}
+
+func (w *c19SlowWriter) Header() http.Header { return w.header }
+func (w *c19SlowWriter) WriteHeader(int)     {}
+func (w *c19SlowWriter) Write(p []byte) (int, error) {
+	if w.once || len(p) < 2 {
+		return w.buf.Write(p)
+	}
+
+	w.once = true
+	half := len(p) / 2
+	w.buf.Write(p[:half])
+	close(w.stall)
+	<-w.resume
+	w.buf.Write(p[half:])
+
+	return len(p), nil
 }
